@@ -94,6 +94,7 @@ pub fn plan(prop: &str, tier: &str) -> Option<Plan> {
             for &e0 in (if quick { &[0i64][..] } else { few }).iter() {
                 b.add_cases("seq/bulk", e(e0).set("noclaim", 1), seq::bulk_specs().len() as i64, 40);
             }
+            b.add_cases("seq/conv", e(0).set("noclaim", 1), seq::conv_cases(), 40);
             if !quick {
                 // the epoch collector's own steps become scheduling points too
                 for s in ["rc/upgrade-vs-attempt", "rc/counted-vs-last-drop", "rc/upgrade-vs-cascade-child"] {
@@ -198,6 +199,11 @@ pub fn plan(prop: &str, tier: &str) -> Option<Plan> {
                 }
                 b.units[from..].iter_mut().for_each(|u| u.bound = 2);
             }
+            // the sequential families written for other properties create and release weak
+            // owners too: run them with the native attribution
+            b.add_cases("seq/conv", e(0).set("noclaim", 1), seq::conv_cases(), 40);
+            b.add_cases("seq/bulk", e(0).set("noclaim", 1), seq::bulk_specs().len() as i64, 40);
+            b.add_cases("seq/wcell", e(0).set("noclaim", 1), seq::seq_cases(seq::wcell_alphabet().len(), if quick { 3 } else { 4 }), 1500);
             b.goal("rc/weak-holder", "upgrade-none");
             b.goal("rc/weak-holder", "upgrade-some");
             rule = "every schedule with at most B preemptions of each listed weak/strong program; non-trivial = deviates from the default schedule, distinct by event-trace hash";
@@ -257,6 +263,9 @@ pub fn plan(prop: &str, tier: &str) -> Option<Plan> {
                 let depth = if quick { 3 } else { 4 };
                 b.add_cases("seq/cell", e(0).set("noclaim", 1), seq::seq_cases(seq::cell_alphabet().len(), depth), 1500);
                 b.add_cases("seq/wcell", e(0).set("noclaim", 1), seq::seq_cases(seq::wcell_alphabet().len(), depth), 1500);
+                for &e0 in (if quick { &[0i64][..] } else { all }).iter() {
+                    b.add_cases("seq/conv", e(e0).set("noclaim", 1), seq::conv_cases(), 40);
+                }
             }
             let bq = if quick { 2 } else { 4 };
             b.add("rc/concurrent-release", all, &[&[("shape", 0)], &[("shape", 1)], &[("shape", 2)]], bq);
@@ -297,6 +306,9 @@ pub fn plan(prop: &str, tier: &str) -> Option<Plan> {
             for &e0 in (if quick { &[0i64, 15][..] } else { &[0i64, 5, 15][..] }).iter() {
                 b.add_cases("seq/cell", e(e0), seq::seq_cases(n, depth), 1500);
             }
+            // links made by conversion (From impls, AtomicRc::new) and emptied by take(): the
+            // shares they own are part of the cell's contract
+            b.add_cases("seq/conv", e(0).set("claim", 8).set("only", 0b1100_0011_0000), seq::conv_cases(), 40);
             let bq = if quick { 2 } else { 3 };
             b.add("cell/concurrent", if quick { few } else { all }, &[&[("prog", 0)], &[("prog", 1)], &[("prog", 2)], &[("prog", 3)], &[("prog", 4)]], bq);
             {
@@ -318,6 +330,8 @@ pub fn plan(prop: &str, tier: &str) -> Option<Plan> {
             for &e0 in (if quick { &[0i64, 15][..] } else { &[0i64, 5, 15][..] }).iter() {
                 b.add_cases("seq/wcell", e(e0), seq::seq_cases(n, depth), 1500);
             }
+            // weak links made by conversion (From impls) and rewritten through get_mut()
+            b.add_cases("seq/conv", e(0).set("claim", 9).set("only", 0b0011_1100_0000), seq::conv_cases(), 40);
             let bq = if quick { 2 } else { 3 };
             b.add("cell/wconcurrent", if quick { few } else { all }, &[&[("prog", 0)], &[("prog", 1)], &[("prog", 2)], &[("prog", 3)]], bq);
             {
@@ -343,7 +357,7 @@ pub fn plan(prop: &str, tier: &str) -> Option<Plan> {
             bounds = json!({"N": "0..=5", "count": "0..=5", "weak N": "0..=4", "configurations": total});
         }
         "C13" | "C14" => {
-            let two: &[i64] = &[0, 2, 5, 6, 7];
+            let two: &[i64] = &[0, 2, 5, 6, 7, 10];
             let three: &[i64] = &[1, 3, 4, 8];
             let bags: &[i64] = &[64, 2];
             for &bag in bags {
@@ -358,7 +372,10 @@ pub fn plan(prop: &str, tier: &str) -> Option<Plan> {
                     b.add_sliced("ebr/sections", &[0], &[&[("prog", pr), ("bag", bag)]], 2, 8);
                 }
             }
+            // the advancer is re-pinned inside its own try_advance() (finding #10)
+            b.add_sliced("ebr/sections", &[0], &[&[("prog", 9), ("bag", 2)]], if quick { 2 } else { 3 }, if quick { 8 } else { 32 });
             if !quick {
+                b.add_sliced("ebr/sections", &[0], &[&[("prog", 9), ("bag", 64)]], 2, 32);
                 b.add_sliced("ebr/sections", &[0], &[&[("prog", 8), ("bag", 64)]], 3, 32);
                 for &pr in two {
                     b.add("ebr/sections", &[7, 65535], &[&[("prog", pr), ("bag", 2)]], 2);
@@ -410,6 +427,21 @@ pub fn plan(prop: &str, tier: &str) -> Option<Plan> {
             for orphan in [1, 2] {
                 b.add_cases("ebr/guards", e(0).set("orphan", orphan), crate::scen::ebr::orphan_cases(if quick { 5 } else { 7 }), 100);
             }
+            // concurrent programs: nobody but the thread itself (reactivate) may move the epoch
+            // its live guards were pinned in, whatever the other participants do
+            for pr in [0i64, 2, 5, 6] {
+                b.add("ebr/sections", &[0], &[&[("prog", pr), ("bag", 64)]], if quick { 2 } else { 3 });
+            }
+            if !quick {
+                b.add_sliced("ebr/sections", &[0], &[&[("prog", 8), ("bag", 64)]], 2, 16);
+                b.add_sliced("ebr/sections", &[0], &[&[("prog", 1), ("bag", 2)]], 2, 16);
+            }
+            {
+                let k = if quick { 2 } else { 3 };
+                let from = b.units.len();
+                b.add_cases("gen/ebr", e(0).set("k", k).set("bag", 2), crate::scen::gen::ebr_cases(k as usize), 10);
+                b.units[from..].iter_mut().for_each(|u| u.bound = 1);
+            }
             b.goal("ebr/guards", "orphan-guard-step");
             b.goal("ebr/guards", "reactivate-sole");
             b.goal("ebr/guards", "reactivate-after-sole");
@@ -454,6 +486,9 @@ pub fn plan(prop: &str, tier: &str) -> Option<Plan> {
                 b.add("ebr/list", &[0], &[&[("prog", pr)]], bq);
             }
             b.add_sliced("ebr/sections", &[0], &[&[("prog", 4), ("bag", 64), ("claim", 18)]], 2, 4);
+            // the consumer of the stall report: try_advance() must not advance after a stalled
+            // traversal (a participant pinned one epoch behind sits behind the stall position)
+            b.add("ebr/sections", &[0, 15], &[&[("prog", 10), ("bag", 64), ("claim", 18)]], if quick { 3 } else { 5 });
             {
                 use crate::scen::ebr::gen_list_cases as lc;
                 let mut from = b.units.len();
